@@ -127,18 +127,20 @@ def missing_flow(ctx, r, rid):
             if okd:
                 v = vals[diffs[0]]
                 dn = ctx.cfg(hc).nodes[diffs[0]]
-                txt = ctx.src(v).replace(" ", "")
-                okd = txt.startswith("sorted(") and ".difference(" in txt or ("-" in txt and txt.startswith("sorted("))
-                # operands
-                names = [x.id for x in ast.walk(v) if isinstance(x, ast.Name)]
-                srcs = {}
-                for nm in names:
-                    ud = ctx.rd(hc).unique_def(dn, nm)
-                    if ud and isinstance(ud[1], ast.AST):
-                        srcs[nm] = ctx.src(ud[1]).replace(" ", "")
-                alljobs = [nm for nm, t in srcs.items() if "self._config.iter_jobs()" in t and ".name" in t and "if" not in t]
-                finished = [nm for nm, t in srcs.items() if "self._results" in t and ".name" in t and "if" not in t]
-                okd = okd and len(alljobs) == 1 and len(finished) == 1 and txt.index(alljobs[0]) < txt.index(finished[0])
+                # the whole expression with its single-definition locals written in place: sorted(<all names>.difference(<result names>)) or sorted(A - B)
+                from ..lib import inline_locals
+
+                e = inline_locals(ctx, hc, v, dn, depth=4)
+                A = B = None
+                if isinstance(e, ast.Call) and ctx.src(e.func) == "sorted" and len(e.args) == 1:
+                    d = e.args[0]
+                    if isinstance(d, ast.Call) and isinstance(d.func, ast.Attribute) and d.func.attr == "difference" and len(d.args) == 1:
+                        A, B = d.func.value, d.args[0]
+                    elif isinstance(d, ast.BinOp) and isinstance(d.op, ast.Sub):
+                        A, B = d.left, d.right
+                ta, tb = (ctx.src(A).replace(" ", ""), ctx.src(B).replace(" ", "")) if A is not None else ("", "")
+                srcs = {"all": ta, "finished": tb}
+                okd = A is not None and "self._config.iter_jobs()" in ta and ".name" in ta and "if" not in ta and "self._results" in tb and ".name" in tb and "if" not in tb
                 r.check(okd, "missing = sorted(configured names - result names)", key_of(hc, "missing computation"), hc.loc(dn.ast),
                         f"missing_jobs is computed as `{ctx.src(v)}` with {srcs}: jobs without a result are not reported missing (or finished ones are)", "reported as missing in the final results")
                 forms = guard_forms(ctx, hc, dn)
